@@ -32,6 +32,9 @@ def check(ctx):
         'before the first declaration; C06.linkage - for an encapsulee in the global namespace the shell is not wrapped '
         'in an unnamed namespace (frames evaluated with an empty and a non-empty scope); C06.ns - distillate_ns derives '
         'namespace, spelling and file prefix from the same value and every create_header passes its prefix unchanged; '
+        'C06.rooted - every C++ name the shell generator spells from a namespace that is model or configuration data (the '
+        'support-files namespace, interface / component names) is root-qualified (::A::B), so that it cannot be re-resolved '
+        'relative to the namespace the shell itself lives in; '
         'C06.constants - the six support headers reconstructed by constant folding are accepted by clang++ -std=c++17 '
         '-fsyntax-only on their own, twice in one TU, all together and (thorough) under two prefixes, with explicit '
         'instantiation of every template against a mock port. Not decided: that the shell header/source compile for '
@@ -46,6 +49,7 @@ def check(ctx):
     _closure(ctx)
     _pair(ctx)
     _ns(ctx)
+    _rooted(ctx)
     frames = _frames(ctx)
     _guard_and_linkage(ctx, frames)
     _constants(ctx, thorough=ctx.thorough)
@@ -226,11 +230,55 @@ def _ns(ctx):
         fn = prog.func(f'support_files.{m}', 'create_header')
         p = fn.params()[0].arg
         txt = ast.unparse(fn.node)
-        ok = f'distillate_ns({p})' in txt and f'ns_prefix={p}' in txt
+        cfgs = [prog.bind_call(fn.module, c).get('ns_prefix') for c in iter_own_nodes(fn.node)
+                if isinstance(c, ast.Call) and getattr(c.func, 'id', getattr(c.func, 'attr', '')) == 'SupportFileCfg']
+        ok = f'distillate_ns({p})' in txt and bool(cfgs) and all(isinstance(a, ast.Name) and a.id == p for a in cfgs)
         run.add('C06.ns', fn.module.name, fn.qualname, f'{m}: prefix handed on', ok,
                 'the prefix reaches distillate_ns and the file configuration unchanged' if ok else
                 'the namespace prefix is not handed unchanged to distillate_ns and SupportFileCfg')
     run.floor('C06.ns', 8)
+
+
+def _rooted(ctx):
+    """A name spelled `Dzn::Sts<...>` inside `namespace Acme::Models { ... }` is looked up in Acme::Models::Dzn first.  The
+    shell lives in the model's namespace, the support files in a namespace the user chooses: every reference the generator
+    makes from data (not from the fixed dzn:: / std:: spellings) has to start at the root."""
+    run, prog = ctx.run, ctx.prog
+    fqn_cls = prog.cls('cpp_gen', 'Fqn')
+    fqn_fn = prog.func('cpp_gen', 'fqn_t')
+    n_sites = 0
+    for fn in prog.all_functions():
+        if not fn.module.name.startswith('dznpy.adv_shell'):
+            continue
+        for c in iter_own_nodes(fn.node):
+            if not isinstance(c, ast.Call):
+                continue
+            sym = prog.resolve_expr_symbol(fn.module, c.func)
+            if sym is not fqn_cls and sym is not fqn_fn:
+                continue
+            b = prog.bind_call(fn.module, c)
+            ns = b.get('ns_ids')
+            root = b.get('prefix_root_ns')
+            if ns is None:
+                continue
+            ns_r = expand_aliases(fn, ns)
+            fixed = all(isinstance(x, ast.Constant) or (isinstance(x, ast.Name) and x.id in ('ns_ids_t', 'NamespaceIds'))
+                        or isinstance(x, (ast.Call, ast.List, ast.Tuple, ast.Load, ast.expr_context)) for x in ast.walk(ns_r)) and \
+                any(isinstance(x, ast.Constant) for x in ast.walk(ns_r))
+            if fixed:
+                continue            # 'dzn.pump', 'std.string': the fixed spellings of the runtime / the standard library
+            # the scope the shell is *defined* in is not a reference
+            par = prog.parent(c)
+            if isinstance(par, ast.Call) and getattr(par.func, 'id', getattr(par.func, 'attr', '')) == 'DznElements':
+                continue
+            n_sites += 1
+            ok = isinstance(root, ast.Constant) and root.value is True
+            run.add('C06.rooted', fn.module.name, fn.qualname, c, ok,
+                    f'`{ast.unparse(ns)[:50]}` is spelled from the root (::...)' if ok else
+                    f'`{ast.unparse(c)[:80]}` spells a namespace that is model / configuration data without the root prefix: inside '
+                    f'the shell\'s own namespace C++ looks the first identifier up relative to that namespace first (a component in '
+                    f'Acme::Models with support files in Models::Dzn does not compile, or binds to another declaration)', node=c)
+    run.floor('C06.rooted', 12)
 
 
 def _frames(ctx) -> Dict[Tuple[str, bool], TStr]:
